@@ -435,6 +435,9 @@ def gen_syn_case(rng, cid, fam):
             if rng.random() < (0.5 if fill is not None else 0.15):
                 spec["via_file"] = True
             step.append(spec)
+        if rng.random() < 0.06:
+            # a field of the file itself, unread, appended again under another name
+            step.append({"self": rng.choice([0, 1, 2]), "mods": [["ncvar", "again"], ["prop", "long_name", "appended again"]]})
         appends.append(step)
     return {"id": cid, "fam": fam, "s0": s0, "appends": appends}
 
@@ -624,6 +627,9 @@ CORPUS = [
     # C17-fix2-1: two bare dimensions of one size; the dry run of the third append put a re-read field on the
     # other dimension and the appended field got a coordinate variable of the wrong dimension
     {"id": "corpus-dry-run-dimension", "fam": "corpus", "s0": [{"syn": {"ncvar": "q", "props": {"units": "1", "standard_name": "specific_humidity"}, "v": 20, "axes": [{"size": 4, "ncdim": "time", "data": True, "unlim": False}], "dim": [], "aux": [{"axes": [0], "ncvar": None, "props": {"long_name": "other aux", "units": "1"}, "v": 4, "bnd": {"v": 0}}, {"axes": [0], "ncvar": None, "props": {"standard_name": "altitude", "units": "m"}, "v": 3}], "msr": [], "vert": None}}], "appends": [[{"syn": {"ncvar": "ta", "props": {"units": "K", "standard_name": "air_temperature", "project": "other", "long_name": "a field"}, "v": 30, "axes": [{"size": 1, "ncdim": "time", "data": True, "unlim": False}], "dim": [], "aux": [{"axes": [0], "ncvar": None, "props": {"long_name": "other aux", "units": "1"}, "v": 5, "bnd": {"v": 0}}, {"axes": [0], "ncvar": None, "props": {"standard_name": "altitude", "units": "m"}, "v": 3}], "msr": [], "vert": None}}, {"syn": {"ncvar": "new", "props": {"units": "1", "standard_name": "specific_humidity", "project": "research", "title": "t1", "institution": "i1"}, "v": 31, "axes": [{"size": 4, "ncdim": "d_time", "data": True, "unlim": False}], "dim": [], "aux": [{"axes": [0], "ncvar": None, "props": {"long_name": "other aux", "units": "1"}, "v": 5, "bnd": {"v": 0}}, {"axes": [0], "ncvar": "auxw", "props": {"standard_name": "altitude", "units": "m"}, "v": 4}], "msr": [], "vert": None, "fill": -999.0}, "via_file": True}], [{"syn": {"ncvar": None, "props": {"units": "1", "comment": "c2"}, "v": 40, "axes": [{"size": 4, "ncdim": "time", "data": True, "unlim": False}], "dim": [], "aux": [{"axes": [0], "ncvar": None, "props": {"long_name": "other aux", "units": "1"}, "v": 5, "bnd": {"v": 0}}, {"axes": [0], "ncvar": "auxv", "props": {"standard_name": "altitude", "units": "m"}, "v": 3}], "msr": [], "vert": None}}, {"syn": {"ncvar": "ta", "props": {"units": "1", "title": "t1", "references": "r1"}, "v": 41, "axes": [{"size": 4, "ncdim": "d_time", "data": True, "unlim": False}], "dim": [], "aux": [{"axes": [0], "ncvar": None, "props": {"long_name": "other aux", "units": "1"}, "v": 4, "bnd": {"v": 0}}, {"axes": [0], "ncvar": None, "props": {"standard_name": "altitude", "units": "m"}, "v": 3}], "msr": [], "vert": None, "fill": -999.0}}], [{"syn": {"ncvar": None, "props": {"units": "K", "standard_name": "air_temperature", "title": "t2", "source": "s2", "institution": "i1", "foo": "baz"}, "v": 50, "axes": [{"size": 4, "ncdim": "time", "data": True, "unlim": False}], "dim": [], "aux": [{"axes": [0], "ncvar": None, "props": {"long_name": "other aux", "units": "1"}, "v": 4, "bnd": {"v": 0}}, {"axes": [0], "ncvar": None, "props": {"standard_name": "altitude", "units": "m"}, "v": 3}], "msr": [], "vert": None, "fill": -999.0}}]]},
+    # commit b49d869: fields of the file itself, their data unread, appended to it
+    {"id": "corpus-append-own-field", "fam": "corpus", "s0": [{"ex": 0}, {"ex": 1}],
+     "appends": [[{"self": 0, "mods": [["ncvar", "again"]]}], [{"self": 1, "mods": [["ncvar", "ta2"], ["scale", 2.0, 0.0]]}]]},
     # seeded C17-s1: one request holding the file's featureType and another one
     {"id": "corpus-mixed-featureType", "fam": "corpus", "s0": [{"ex": 3}],
      "appends": [[{"ex": 3, "mods": [["ncvar", "rf"]]}, {"ex": 4}], [{"ex": 4}, {"ex": 3, "mods": [["ncvar", "rf"]]}]]},
